@@ -22,10 +22,14 @@ Theorem center_midpoint_R : forall M eps r, In r (float_insts (IO (OR M eps))) -
 Proof. exact ProofsCenter.center_midpoint_R. Qed.
 Print Assumptions center_midpoint_R.
 
-(* executable binary32 / int32 reading: exact midpoint on the former overflow witnesses and on ordinary boxes (truncation toward zero
-   for int elements).  What the repaired code guarantees for int elements on the machine: the exact truncated midpoint whenever
-   |lower_i|, |upper_i| <= 2^23 (every step of the float route is then exact), otherwise the midpoint within float rounding
-   (|error| < 1 + 2^-22 max(|lower_i|,|upper_i|)); checked numerically by the harness (fuzz mode), not modelled in Coq. *)
+(* executable binary32 / int32 reading (Model.IX: every binary32 result and every int -> float conversion rounded to nearest-even):
+   exact midpoint on the former overflow witnesses and on ordinary boxes (truncation toward zero for int elements).
+   What the repaired code guarantees for int elements, whose midpoint is formed in binary32:
+     - the exact truncated midpoint whenever |lower_i|, |upper_i| <= 2^23 (every step of the float route is then exact);
+     - otherwise the midpoint within float rounding, |error| < 1 + 2^-22 max(|lower_i|,|upper_i|), PROVIDED the rounded float sum is below
+       2^31, i.e. unless upper_i >= INT_MAX-63 and lower_i >= INT_MAX-190: there the float -> int conversion is out of range
+       (undefined behaviour; x86: INT_MIN) - open finding C05-center-int-bounds-above-INT_MAX-127, witness center_int_top_refuted.
+   The rounding bound itself is checked numerically by the harness (exact batch + fuzzc), not proved in Coq. *)
 Theorem center_repaired_witnesses :
   r_center (ops_1f IX) (mk_range_t_s IX (W 12) (W 13)) = XF ((25 * 2 ^ 123)%Z # 1) /\
   r_center (ops_1f IX) (mk_range_t_s IX (XF (Qopp FLT_MAX)) (XF FLT_MAX)) = XF 0 /\
@@ -42,3 +46,14 @@ Theorem center_sum_overflow_old_refuted :
   midpoint_old IX I32 (Zx 2000000000) (Zx 2100000000) = Zx (-97483648).
 Proof. exact ProofsCenter.center_sum_overflow_old_refuted. Qed.
 Print Assumptions center_sum_overflow_old_refuted.
+
+(* open finding C05-center-int-bounds-above-INT_MAX-127 (not repaired: a repair needs a separate integer midpoint path) *)
+Theorem center_int_top_refuted :
+  r_center (ops_1i IX) (mk_range_t_s IX (Zx 2147483647) (Zx 2147483647)) = Zx (-2147483648) /\
+  r_center (ops_1i IX) (mk_range_t_s IX (Zx (2147483647 - 190)) (Zx (2147483647 - 63))) = Zx (-2147483648) /\
+  r_center (ops_1i IX) (mk_range_t_s IX (Zx (2147483647 - 191)) (Zx 2147483647)) = Zx (2147483647 - 127) /\
+  r_center (ops_1i IX) (mk_range_t_s IX (Zx (2147483647 - 100)) (Zx (2147483647 - 100))) = Zx (2147483647 - 127) /\
+  r_center (ops_1i IX) (mk_range_t_s IX (Zx (-2147483648)) (Zx (-2147483648))) = Zx (-2147483648) /\
+  r_center (ops_1i IX) (mk_range_t_s IX (Zx (-2147483648)) (Zx (-2147483648 + 200))) = Zx (-2147483648 + 128).
+Proof. exact ProofsCenter.center_int_top_refuted. Qed.
+Print Assumptions center_int_top_refuted.
